@@ -1056,7 +1056,11 @@ func (g *gen) export(i int) {
 	if i < 0 {
 		return
 	}
-	g.push(Op{Op: "export", I: i, Fmt: hx.Pick(g.r, exportFmts)})
+	f := hx.Pick(g.r, exportFmts)
+	if g.r.Chance(1, 4) {
+		f = hx.Pick(g.r, []string{"gltf", "gltf-text", "gltf-two"}) // the writers that take the mesh by pointer
+	}
+	g.push(Op{Op: "export", I: i, Fmt: f})
 	if g.max < 24 {
 		g.max++
 	}
